@@ -79,6 +79,9 @@ type Evaluator struct {
 	SortCalls []SortCall
 	// SymVals gives symbols a concrete value for the purpose of comparisons only.
 	SymVals map[string]int64
+	// MapReverse makes range over a map visit keys in reverse insertion order
+	// (used to expose dependence on map iteration order).
+	MapReverse bool
 }
 
 type SendRec struct {
